@@ -201,7 +201,12 @@ class KGLambda:
     def __init__(self, fn, args=None, provide_klong=False, wildcard=False):
         self.fn = fn
         params = args or safe_inspect(fn)
-        self.args = [reserved_fn_symbol_map[x] for x in reserved_fn_args if x in params]
+        # Arguments are passed by position: a callable declaring n of the names x, y, z
+        # (any subset, any order) reads the first n slots of its own call frame, so
+        # its i-th parameter receives the i-th argument. Looking the declared names
+        # up instead made (x, z) read z from an enclosing frame or raise KeyError.
+        n_args = sum(1 for x in reserved_fn_args if x in params)
+        self.args = reserved_fn_symbols[:n_args]
         self._provide_klong = provide_klong or 'klong' in params
         self._wildcard = wildcard
 
